@@ -568,7 +568,7 @@ def snapshot(d):
 
 
 FAILING_TEMPLATE = ("// generated for {{ T | type_to_include_path }}\n// line two\n"
-                    "{% if T.short_name == '@SHORT@' %}{{ 1 // 0 }}{% endif %}\n// end\n")
+                    "{% if (T.short_name | default('')) == '@SHORT@' %}{{ 1 // 0 }}{% endif %}\n// end\n")
 
 
 def prepare_templates(sandbox, failing_short=None):
@@ -1037,13 +1037,61 @@ def parse_cli(argv):
     return nunavut.cli._make_parser().parse_args(argv)   # pylint: disable=protected-access
 
 
+def glue_one(ctx, cfgdir, tag, route, lang, ext, stem, out, files, short_option=False):
+    """One case of the stream "glue" on the real code: (request line for the model, real answer, case description); the
+    property's own predicate (what was asked for arrives) is evaluated here."""
+    from nunavut.cli.runners import ArgparseRunner
+    from nunavut.lang import Language
+    paths = [write_config_file(cfgdir / f"g{tag}_{j}.yaml", lang, v) for j, v in enumerate(files)]
+    dext, dstem = lang_defaults(lang)
+    case = {"universe": "glue", "route": route, "lang": lang, "ext_arg": ext, "stem_arg": stem, "outdir_arg": out,
+            "configuration_files": files}
+    api_out = out if out is not None else "api-out"
+    try:
+        if route == "cli":
+            argv = (["--configuration"] + [str(pth) for pth in paths] if paths else []) + ["--target-language", lang, "--experimental-languages"]
+            if out is not None: argv += ["--outdir", out]
+            if ext is not None: argv += ["-e", ext] if short_option else ["--output-extension=" + ext]
+            if stem is not None: argv += ["--namespace-output-stem=" + stem]
+            args = parse_cli(argv)
+            runner = ArgparseRunner.__new__(ArgparseRunner)
+            runner._args = args                                   # pylint: disable=protected-access
+            lctx = runner._create_language_context()              # pylint: disable=protected-access
+            got_out = args.outdir
+            want_ext = None if ext is None else cli_extension_oracle(ext)
+        else:
+            lctx = make_lctx(lang, ext, stem, None, paths)
+            got_out = api_out
+            want_ext = ext
+        language = lctx.get_target_language()
+        real = ["ok", got_out, language.extension, language.get_config_value(Language.WKCV_NAMESPACE_FILE_STEM, "_")]
+    except KeyError:
+        real = ["err:key"]
+    req = " ".join(["glue"] + glue_fields(route, lang, files, out if route == "cli" else api_out, ext, stem))
+    # ---- the property's own predicate: what was asked for arrives
+    if real[0] == "ok":
+        exp_ext, exp_stem = dext, dstem
+        for f in files:                      # later files win; null means the empty string
+            if "extension" in f: exp_ext = f["extension"] or ""
+            if "namespace_file_stem" in f: exp_stem = f["namespace_file_stem"] or ""
+        if want_ext is not None: exp_ext = want_ext
+        if stem is not None: exp_stem = stem
+        if real[2] != exp_ext:
+            ctx.fail({"kind": "extension-override-not-applied"}, "the output extension the caller asked for (an empty one included) "
+                     "is not the extension the language object generates with", dict(case, extension=real[2], expected=exp_ext))
+        if real[3] != exp_stem:
+            ctx.fail({"kind": "stem-override-not-applied"}, "the namespace file stem the caller asked for is not the one Namespace uses",
+                     dict(case, stem=real[3], expected=exp_stem))
+        # (the spelling of the output directory is compared with the model only: whether another spelling names the same
+        #  directory is for the operating system to say - stream "cli" creates the links and looks where the files are)
+    return req, real, case
+
+
 def run_glue_values(ctx, drv):
     """Stream "glue": random (language, configuration files, -O / -e / --namespace-output-stem given or not, empty or not)
     through the real parser + `ArgparseRunner._create_language_context` (CLI route) and through the builder calls (API route)
     versus `cfgOfCli` / `cfgOfApi`; compared: `args.outdir`, `language.extension`, the stem `Namespace.__init__` reads.
     Failing-input search: a given override (the empty string is one) must arrive; an absent one must leave the default."""
-    from nunavut.cli.runners import ArgparseRunner
-    from nunavut.lang import Language
     rng = ctx.rng
     cfgdir = ctx.scratch / "glue_cfg"
     cfgdir.mkdir(parents=True, exist_ok=True)
@@ -1065,59 +1113,15 @@ def run_glue_values(ctx, drv):
                 if rng.random() < 0.4:
                     vals["namespace_file_stem"] = rng.choice(["cfgstem", "", None])
                 files.append(vals)
-        paths = [write_config_file(cfgdir / f"g{i}_{j}.yaml", lang, v) for j, v in enumerate(files)]
-        dext, dstem = lang_defaults(lang)
+        short = rng.random() < 0.5
         for route in ("cli", "api"):
-            case = {"universe": "glue", "route": route, "lang": lang, "ext_arg": ext, "stem_arg": stem, "outdir_arg": out,
-                    "configuration_files": files}
-            try:
-                if route == "cli":
-                    argv = ["--target-language", lang, "--experimental-languages"]
-                    for pth in paths:
-                        argv += ["--configuration", str(pth)]
-                    if out is not None: argv += ["--outdir", out]
-                    if ext is not None: argv += ["-e", ext] if rng.random() < 0.5 else ["--output-extension=" + ext]
-                    if stem is not None: argv += ["--namespace-output-stem=" + stem]
-                    args = parse_cli(argv)
-                    runner = ArgparseRunner.__new__(ArgparseRunner)
-                    runner._args = args                                   # pylint: disable=protected-access
-                    lctx = runner._create_language_context()              # pylint: disable=protected-access
-                    got_out = args.outdir
-                    want_ext = None if ext is None else cli_extension_oracle(ext)
-                else:
-                    lctx = make_lctx(lang, ext, stem, None, paths)
-                    got_out = out if out is not None else "api-out"
-                    want_ext = ext
-                language = lctx.get_target_language()
-                real = ["ok", got_out, language.extension, language.get_config_value(Language.WKCV_NAMESPACE_FILE_STEM, "_")]
-            except KeyError:
-                real = ["err:key"]
-            reals.append(real)
-            cases.append(case)
-            reqs.append(" ".join(["glue"] + glue_fields(route, lang, files, out if route == "cli" or out is not None else "api-out", ext, stem)))
+            req, real, case = glue_one(ctx, cfgdir, i, route, lang, ext, stem, out, files, short)
+            reqs.append(req); reals.append(real); cases.append(case)
             ctx.case(("glue", route, lang, ext, stem, out, repr(files)), ext is not None or stem is not None or bool(files))
             ctx.count("stream=glue")
             ctx.count(f"glue_ext={'absent' if ext is None else 'empty' if ext == '' else 'given'}")
             ctx.count(f"glue_stem={'absent' if stem is None else 'empty' if stem == '' else 'given'}")
-            # ---- the property's own predicate: what was asked for arrives
-            if real[0] == "ok":
-                exp_ext, exp_stem = dext, dstem
-                for f in files:                      # later files win; null means the empty string
-                    if "extension" in f: exp_ext = f["extension"] or ""
-                    if "namespace_file_stem" in f: exp_stem = f["namespace_file_stem"] or ""
-                if want_ext is not None: exp_ext = want_ext
-                if stem is not None: exp_stem = stem
-                exp_out = got_out if route == "api" else ("nunavut_out" if out is None else out)
-                if real[2] != exp_ext:
-                    ctx.fail({"kind": "extension-override-not-applied"}, "the output extension the caller asked for (an empty one included) "
-                             "is not the extension the language object generates with", dict(case, extension=real[2], expected=exp_ext))
-                if real[3] != exp_stem:
-                    ctx.fail({"kind": "stem-override-not-applied"}, "the namespace file stem the caller asked for is not the one Namespace uses",
-                             dict(case, stem=real[3], expected=exp_stem))
-                if real[1] != exp_out:
-                    ctx.fail({"kind": "outdir-respelled"}, "the output directory reaches build_namespace_tree in another spelling than the one given "
-                             "(only the operating system can tell which directory a spelling with '..' or links names)",
-                             dict(case, outdir=real[1], expected=exp_out))
+            if len(files) > 1: ctx.count("glue_several_configuration_files")
     if drv is not None:
         for line, real, case, ans in zip(reqs, reals, cases, drv.ask(reqs)):
             ctx.traces += 1
@@ -1129,7 +1133,7 @@ def run_glue_values(ctx, drv):
         raws = GLUE_EXT_ARGS[1:] + ["".join(rng.choice(".h/a_.") for _ in range(rng.randint(0, 5))) for _ in range(60 if ctx.quick else 600)]
         for raw, ans in zip(raws, drv.ask(["exttype " + enc(r) for r in raws])):
             ctx.traces += 1
-            real = parse_cli(["-e", raw] if not raw.startswith("-") else ["--output-extension=" + raw]).output_extension
+            real = parse_cli(["--output-extension=" + raw]).output_extension
             if dec(ans) != real:
                 ctx.disagree("exttype", raw, dec(ans), real)
     shutil.rmtree(cfgdir, ignore_errors=True)
@@ -1207,14 +1211,13 @@ def cli_case(ctx, drv, roots, types, case, ubase, idx):
     spelled = None if case["outdir"] is None else case["outdir"].replace("@ABS@", str(sb))
     files_cfg = case["configuration_files"]
     cfg_paths = [write_config_file(sb / f"cfg{j}.yaml", lang, v) for j, v in enumerate(files_cfg)]
-    argv = ["--target-language", lang, "--experimental-languages", "--generate-support", case["support"]]
+    argv = (["--configuration"] + [str(x) for x in cfg_paths] if cfg_paths else []) + \
+        ["--target-language", lang, "--experimental-languages", "--generate-support", case["support"]]
     if spelled is not None: argv += ["--outdir", spelled]
     if case["ext_arg"] is not None: argv += ["--output-extension=" + case["ext_arg"]]
     if case["stem_arg"] is not None: argv += ["--namespace-output-stem=" + case["stem_arg"]]
     if case["gnt"]: argv += ["--generate-namespace-types"]
     if case["templates"] != "builtin": argv += ["--templates", str(tdir if case["templates"] == "user" else fdir)]
-    for pth in cfg_paths:
-        argv += ["--configuration", str(pth)]
     argv += [rdir]
     rep = dict(case, argv=argv[:-1] + ["<root namespace dir>"], cwd="<sandbox>/work", sandbox_links={k.replace(str(sb), "<sandbox>"): v.replace(str(sb), "<sandbox>") for k, v in links.items()})
     named_dir = os.path.realpath(os.path.join(cwd, spelled if spelled is not None else "nunavut_out"))
@@ -1377,7 +1380,9 @@ def run_cli_glue(ctx, drv):
             if not ts:
                 continue
             for idx, case in enumerate(ctx.rng.sample(cli_cases(ctx)[:40], 10)):
-                cli_case(ctx, drv, rs, ts, dict(case, universe=f"cli-glue-random:{u}"), ubase, 1000 + u * 100 + idx)
+                # built-in templates only on the fixed namespace: whether they render arbitrary keyword names is not C11's subject
+                tpl = "user" if case["templates"] == "builtin" else case["templates"]
+                cli_case(ctx, drv, rs, ts, dict(case, universe=f"cli-glue-random:{u}", templates=tpl), ubase, 1000 + u * 100 + idx)
     shutil.rmtree(ubase, ignore_errors=True)
 
 
@@ -1577,7 +1582,16 @@ def replay(ctx, path):
     uname = rp.get("universe", "")
     probe = common.Ctx("C11", r.get("tier", "quick"), r.get("seed", 0))
     try:
-        if uname.startswith("corpus:") or uname in ("exhaustive", "support-only"):
+        if uname == "glue":
+            cfgdir = probe.scratch / "glue_cfg"
+            cfgdir.mkdir(parents=True)
+            glue_one(probe, cfgdir, 0, rp["route"], rp["lang"], rp.get("ext_arg"), rp.get("stem_arg"), rp.get("outdir_arg"),
+                     rp.get("configuration_files") or [], short_option=True)
+        elif uname == "cli-glue":
+            roots = write_corpus_universe(probe.scratch / "cli" / "dsdl", CLI_SPEC)
+            case = {k: rp.get(k) for k in ("universe", "lang", "outdir", "ext_arg", "stem_arg", "gnt", "templates", "support", "configuration_files", "how")}
+            cli_case(probe, None, roots, read_root(roots[0]), case, probe.scratch / "cli", 0)
+        elif uname.startswith("corpus:") or uname in ("exhaustive", "support-only"):
             spec = EXH_SPEC if uname == "exhaustive" else {"roots": [{"name": "emptyroot", "files": {}, "dirs": ["."]}]} if uname == "support-only" \
                 else json.loads((common.VERIF / "corpus" / "C11" / uname[7:]).read_text())
             roots = write_corpus_universe(probe.scratch / "dsdl", spec)
